@@ -65,6 +65,20 @@ def _make_family():
 _make_family()
 
 
+def _make_second_level():
+    """a subclass of a subclass for every base (still must print under ITS qualified name)"""
+    for base in BASES:
+        parent = FAMILY[base][0]
+        name = base.__name__.title() + 'Grandchild'
+        cls = type(name, (parent,), {'__module__': __name__, '__qualname__': name})
+        globals()[name] = cls
+        FAMILY[base].append(cls)
+        CLASSES[name] = cls
+
+
+_make_second_level()
+
+
 class IE(enum.IntEnum):
     A = 1
     B = 2
@@ -95,22 +109,22 @@ def base_values(base, rng, quick):
     if base is list:
         vs = [[], [1], [1, 'a'], [[], [1, 2]], ['x' * 30, 'y' * 30, 'z' * 30], list(range(12))]
     elif base is tuple:
-        vs = [(), (1,), (1, 'a'), ((), (1,)), ('x' * 40, 'y' * 40), tuple(range(12))]
+        vs = [(), (1,), (1, 'a'), ((), (1,)), ('x' * 40, 'y' * 40), tuple(range(12)), ('lorem ipsum dolor sit amet ' * 4,), ([1, 2],)]
     elif base is set:
         vs = [set(), {1}, {1, 'a'}, {'x' * 40, 'y' * 40}, set(range(12))]
     elif base is frozenset:
         vs = [frozenset(), frozenset([1]), frozenset([1, 'a']), frozenset(['x' * 40, 'y' * 40])]
     elif base is dict:
-        vs = [{}, {1: 2}, {'a': 1, 'b': [1, 2]}, {1: 2, 3: 4, 5: 6}, {'k' * 30: 'v' * 40}]
+        vs = [{}, {1: 2}, {'a': 1, 'b': [1, 2]}, {1: 2, 3: 4, 5: 6}, {'k' * 30: 'v' * 40}, {'b': 1, 'a': 2}, {3: 'c', 1: 'a', 2: 'b', 0: 'z'}]
     elif base is str:
         vs = ['', 'a', "'", '"', 'it\'s "x"', '\\', '\n', 'é', 'a' * 25, 'a' * 60, 'lorem ipsum dolor sit amet ' * 4, 'x' * 200]
         vs += [V.rand_text(rng) for _ in range(2 if quick else 8)]
     elif base is bytes:
-        vs = [b'', b'a', b"'", b'"', b'\\', b'\n', b'\xe9\x00', b'a' * 25, b'a' * 60, b'lorem ipsum dolor sit amet ' * 4]
+        vs = [b'', b'a', b"'", b'"', b'\\', b'\n', b'\xe9\x00', b'a' * 25, b'a' * 60, b'lorem ipsum dolor sit amet ' * 4, b'it\'s "x" ' * 9, b'\xff\'\xfe"' * 3]
     elif base is int:
         vs = [0, 1, -1, 10 ** 30, -2 ** 64, 255]
     elif base is float:
-        vs = [0.0, -0.0, 1.5, -2.25, 1e300, 5e-324, float('inf'), float('-inf'), float('nan')]
+        vs = [0.0, -0.0, 1.5, -2.25, 1e300, 5e-324, float('inf'), float('-inf'), float('nan'), 1e22, -1.5e-7, 123456789.125]
     return vs
 
 
@@ -196,7 +210,10 @@ def check_one(sh, clsname, value, ctx, cfg, desc):
     if type(obj) is not cls:
         sh.violation('class-lost' + tag, 'evaluates to %s instead of %s: %r' % (type(obj).__name__, cls.__qualname__, text[:300]), case)
         return text
-    if V.canon(V.base_value(obj)) != V.canon(V.base_value(value)):
+    cg, cw = V.canon(V.base_value(obj)), V.canon(V.base_value(value))
+    if cfg.get('sort_dict_keys'):
+        cg, cw = V.canon_unordered_dicts(cg), V.canon_unordered_dicts(cw)     # key order is C01's business
+    if cg != cw:
         sh.violation('value-changed' + tag, 'underlying value %r became %r: %r' % (V.base_value(value), V.base_value(obj), text[:300]), case)
         return text
     node = locate(ctx, ast.parse('(' + text + '\n)', mode='eval').body)
@@ -221,7 +238,8 @@ def check_one(sh, clsname, value, ctx, cfg, desc):
 
 def configs(rng, quick, value):
     L = len(repr(V.base_value(value))) if not isinstance(value, (set, frozenset)) else 20
-    cfgs = [{'width': 79}, {'width': rng.choice([1, 5, 10, 20, 40]), 'ribbon_width': rng.choice([5, 20, 71]), 'indent': rng.choice([1, 2, 4, 8])}]
+    cfgs = [{'width': 79}, {'width': rng.choice([1, 5, 10, 20, 40]), 'ribbon_width': rng.choice([5, 20, 71]), 'indent': rng.choice([1, 2, 4, 8])},
+            {'width': rng.choice([20, 40, 79]), 'sort_dict_keys': True}]
     cfgs += [{'width': w, 'ribbon_width': w} for w in (L + rng.randint(0, 30), max(1, L - rng.randint(0, 10)))]
     if not quick:
         cfgs += [{'width': w, 'ribbon_width': w} for w in range(max(1, L - 3), L + 40, 3)]
@@ -238,8 +256,11 @@ def run_shard(sh):
             rng0 = V.rng_for('c08v', sh.seed, cls.__qualname__)
             for bv in base_values(base, rng0, quick):
                 for ctx in CONTEXTS:
-                    if ctx == 'dictkey' and base in (list, set, dict):
-                        continue
+                    if ctx == 'dictkey':
+                        try:
+                            hash(cls(bv))
+                        except TypeError:
+                            continue
                     idx += 1
                     if not sh.mine(idx):
                         continue
